@@ -159,6 +159,7 @@ def run(sc):
             addrs = op["addrs"]
             before = {n: bytes(f["data"]) for n, f in slc.files.items()}
             slc.pccc_log = []
+            slc.inject = [dict(i) for i in op.get("inject", [])]
             if k == "read":
                 outcome, res = harness.call(sim, drv.read, *[a["text"] for a in addrs])
             else:
@@ -185,6 +186,23 @@ def run(sc):
                     if bytes(f["data"]) != before[n]:
                         hits.hit("C18", "slc.table_diff", f"invalid address {inv[0]['text']!r} changed file {n}",
                                  form=inv[0]["invalid"], ft="?", field="changed-on-invalid")
+                continue
+            if op.get("inject"):
+                # the controller (or a gateway on the way) refuses every command of this call with a PCCC status: no
+                # result may claim success - a "written" value that a following read does not return - and nothing changed
+                sts = op["inject"][0]["sts"]
+                rs = (res if isinstance(res, list) else [res]) if outcome == "ok" else []
+                if outcome not in ("ok", "library"):
+                    hits.hit("C18", "slc.refused", f"{k} refused with STS 0x{sts:02x} raised {type(res).__name__}: {res}",
+                             what="foreign-exception", rw=k, sts_class="local" if sts < 0x10 else "remote")
+                for a, t in zip(addrs, rs):
+                    if t.error is None or (k == "write" and bool(t)) or (k == "read" and t.value is not None):
+                        hits.hit("C18", "slc.refused", f"{k} {a['text']!r} was refused with STS 0x{sts:02x} but returned {t!r}",
+                                 what="success-on-refusal", rw=k, sts_class="local" if sts < 0x10 else "remote")
+                for n, f in slc.files.items():
+                    if bytes(f["data"]) != before[n]:
+                        hits.hit("C18", "slc.table_diff", f"refused {k} changed file {n}", form="refused", ft="?",
+                                 field="changed-on-refusal")
                 continue
             if outcome != "ok":
                 hits.hit("C18", "slc.call", f"{k} of {[a['text'] for a in addrs]} raised {type(res).__name__}: {res} "
@@ -495,6 +513,11 @@ def gen(seed, tier, prop="C18"):
         op = {"id": oid, "kind": k, "addrs": addrs}
         if k == "write":
             op["values"] = vals
+        if prop == "C18" and r.random() < 0.06:
+            # every command of this call is refused: by the controller (remote status, high nibble) or by a
+            # gateway on the way (local status, low nibble)
+            op["inject"] = [{"where": "pccc", "match": {}, "sticky": True,
+                             "sts": r.choice((0x01, 0x02, 0x05, 0x0F, 0x10, 0x30, 0x50, 0xF0, r.randrange(1, 256)))}]
         sc["ops"].append(op)
     sc["ops"].append({"id": "oz", "kind": "close"})
     return sc
